@@ -81,7 +81,8 @@ type Dir struct {
 	Groups  []dEntry
 	Clients []*dClient
 	Ops     []dOp
-	Meddle  bool // C15: a second task calls Set* and getters while operations are in flight
+	Meddle  bool             // C15: a second task calls Set* and getters while operations are in flight
+	sibling *tls.Certificate // C18: client certificate of another GetTLSConfig(WithMTLS) call
 
 	// model (scheduler only)
 	mUsers   []dEntry
@@ -157,7 +158,7 @@ func DrawDir(prop, tier string, ch *Chooser, lean bool, s *Sim) *Dir {
 		d.NoTLS, d.MTLS, d.Anon = false, true, true
 		d.Clients = nil
 		for i, n := 0, 4+ch.Choose(8); i < n; i++ {
-			d.Ops = append(d.Ops, dOp{Kind: "probe", DN: []string{"valid", "nocert", "foreign", "valid", "plaintext", "starttls-in-session", "nocert", "foreign"}[ch.Choose(8)]})
+			d.Ops = append(d.Ops, dOp{Kind: "probe", DN: []string{"valid", "nocert", "foreign", "valid", "plaintext", "starttls-in-session", "nocert", "foreign", "sibling"}[ch.Choose(9)]})
 		}
 		return d
 	}
@@ -350,6 +351,17 @@ func (d *Dir) drive(w *simrt.World) {
 	if d.MTLS {
 		opts = append(opts, testdirectory.WithMTLS(t))
 	}
+	for _, op := range d.Ops {
+		if op.Kind == "probe" && op.DN == "sibling" && d.sibling == nil {
+			// the client certificate of another mTLS configuration made in
+			// this process (a second directory's, say): issued by a CA of its
+			// own, so this directory must not accept it
+			_, cc := testdirectory.GetTLSConfig(t, testdirectory.WithMTLS(t))
+			if len(cc.Certificates) > 0 {
+				d.sibling = &cc.Certificates[0]
+			}
+		}
+	}
 	dir := testdirectory.Start(t, opts...)
 	d.d = dir
 	simrt.Emit("d-started", 0, 0, 0, 0, "", nil)
@@ -491,6 +503,13 @@ func (d *Dir) probe(w *simrt.World, kind string, valid *tls.Config) (int, string
 			fc := getPKI().foreignCli
 			cfg.Certificates = nil
 			cfg.GetClientCertificate = func(*tls.CertificateRequestInfo) (*tls.Certificate, error) { return &fc, nil }
+		case "sibling":
+			sc := d.sibling
+			if sc == nil {
+				return -1, "no sibling certificate"
+			}
+			cfg.Certificates = nil
+			cfg.GetClientCertificate = func(*tls.CertificateRequestInfo) (*tls.Certificate, error) { return sc, nil }
 		}
 		tc := tls.Client(ep, cfg)
 		if err := tc.Handshake(); err != nil {
@@ -619,10 +638,11 @@ func (d *Dir) judge(s *Sim, op *dOp, res *dResult) {
 		d.mAnon = op.Anon
 	case "probe":
 		s.Probe("C18-offending-client-dir-" + op.DN)
-		offending := op.DN == "nocert" || op.DN == "foreign" || op.DN == "plaintext"
+		offending := op.DN == "nocert" || op.DN == "foreign" || op.DN == "plaintext" || op.DN == "sibling"
 		switch {
 		case offending && res.Code == 1:
-			s.Violate("C18", "gate", "testdirectory-mtls client="+op.DN, fmt.Sprintf("a client that %s received an LDAP response from the WithMTLS test directory", map[string]string{"nocert": "presented no certificate", "foreign": "presented a certificate from another CA", "plaintext": "sent plaintext LDAP"}[op.DN]))
+			s.Violate("C18", "gate", "testdirectory-mtls client="+op.DN, fmt.Sprintf("a client that %s received an LDAP response from the WithMTLS test directory", map[string]string{"nocert": "presented no certificate", "foreign": "presented a certificate from another CA", "plaintext": "sent plaintext LDAP",
+				"sibling": "presented the client certificate of another GetTLSConfig(WithMTLS) call, issued by that call's own CA"}[op.DN]))
 		case !offending && res.Code != 1:
 			s.Violate("C18", "isolated", "testdirectory-mtls conforming-client-rejected", fmt.Sprintf("a client with the directory's own client certificate got no response: %s", res.Err))
 		}
